@@ -70,8 +70,9 @@ def _install():
 
     def m_from_dict(it, a, k, n):
         g = _g(it)
-        if g is None:
-            raise Unsupported('InterestParam.from_dict outside the express contracts')
+        if g is None:          # not one of the contracts of this module: interpret the real function
+            return it.invoke(it.function_from_real(nf.InterestParam.from_dict.__func__ if hasattr(nf.InterestParam.from_dict, '__func__')
+                                                   else nf.InterestParam.from_dict), list(a), dict(k), n)
         p = Opaque('interest_param', 'param from kwargs')
         p.d['from'] = dict(a[0])
         g['from_dict'].append(p)
@@ -358,3 +359,160 @@ class clean_up_v1(_CleanBase):
         out = c.common(cx, pit)
         out['handler_table_emptied_once'] = fib.cleared == 1
         return out
+
+
+# ----------------------------------------------------------------------------- Data-sending wrappers
+from ndn.security.signer import NullSigner                                      # noqa: E402
+
+
+@contract
+class make_data_summary(Contract):
+    """call-site summary (make_data's own contract: contracts/packet.py): some wire, arguments recorded"""
+    fn = nf.make_data
+    assumed = True
+    raises = {ValueError: lambda cx, **p: True, TypeError: lambda cx, **p: True}
+
+    def use_contract_at(c, it, args, kwargs):
+        return it.run.ghost.get('dw') is not None
+
+    def result(c, cx, **p):
+        cx.run.ghost['dw']['make_data'].append(p)
+        return Opaque('wire', 'data wire')
+
+
+def _install_dw():
+    from pyvc import models
+
+    def m_from_dict(it, a, k, n):
+        g = it.run.ghost.get('dw')
+        if g is None:          # not one of the contracts of this module: interpret the real function
+            return it.invoke(it.function_from_real(nf.MetaInfo.from_dict.__func__ if hasattr(nf.MetaInfo.from_dict, '__func__')
+                                                   else nf.MetaInfo.from_dict), list(a), dict(k), n)
+        mi = Opaque('meta_info', 'meta info from kwargs')
+        mi.d['from'] = dict(a[0])
+        g['from_dict'].append(mi)
+        return mi
+    models.REAL_FUNCTION_MODELS[nf.MetaInfo.from_dict] = m_from_dict
+
+
+_install_dw()
+
+
+class _DataBase(Contract):
+    props = ('C01', 'C05')
+    raises = {ValueError: lambda cx, **p: True, TypeError: lambda cx, **p: True}
+
+    def mk(self, cx):
+        run = cx.run
+        g = dict(make_data=[], from_dict=[])
+        run.ghost['dw'] = g
+        mk_ = run.choose([('meta_info given', True), ('built from kwargs', True)], 'meta_info')
+        kw = {'freshness_period': 4000}
+        if mk_ == 'meta_info given':
+            kw['meta_info'] = Opaque('meta_info', 'given meta info')
+        g.update(kw0=dict(kw), mk=mk_)
+        return g, kw
+
+    def meta_clause(c, g, md):
+        if g['mk'] == 'meta_info given':
+            return {'given_meta_info_used': md['meta_info'] is g['kw0']['meta_info'] and g['from_dict'] == []}
+        ok = len(g['from_dict']) == 1 and md['meta_info'] is g['from_dict'][0]
+        return {'meta_info_built_from_the_keyword_arguments': ok and g['from_dict'][0].d['from'].get('freshness_period') == 4000}
+
+
+@contract
+class make_data_v2(_DataBase):
+    fn = appv2.NDNApp.make_data
+    doc = ('appv2 NDNApp.make_data: exactly one Data packet is encoded from this name, content and signer with the given MetaInfo, or one '
+           'built from the keyword arguments, and returned')
+
+    def setup(self, cx):
+        g, kw = self.mk(cx)
+        return dict(name=Opaque('token', 'name'), content=Opaque('token', 'content'), signer=Opaque('token', 'signer'), kwargs=kw)
+
+    def post(c, cx, result, name, content, signer, kwargs):
+        g = cx.run.ghost['dw']
+        ok = len(g['make_data']) == 1
+        out = {'one_packet_encoded_and_returned': ok and isinstance(result, Opaque) and result.typ == 'wire'}
+        if ok:
+            md = g['make_data'][0]
+            out['from_this_name_content_and_signer'] = md['name'] is name and md['content'] is content and md['signer'] is signer
+            out.update(c.meta_clause(g, md))
+        return out
+
+
+@contract
+class prepare_data_v1(_DataBase):
+    fn = app1.NDNApp.prepare_data
+    doc = ('legacy prepare_data: the signer is a NullSigner for no_signature, else the explicit signer, else the keychain\'s signer for the '
+           'keyword arguments; exactly one Data packet is encoded from this name, content, that signer and the given or keyword-built '
+           'MetaInfo, and returned')
+
+    def setup(self, cx):
+        run = cx.run
+        g, kw = self.mk(cx)
+        sk = run.choose([('no_signature', True), ('signer given', True), ('keychain', True)], 'signing')
+        if sk == 'no_signature':
+            kw['no_signature'] = True
+            if run.choose([(False, True), (True, True)], 'also a signer argument'):
+                kw['signer'] = Opaque('token', 'signer')
+        elif sk == 'signer given':
+            kw['signer'] = Opaque('token', 'signer')
+        kc = Keychain1()
+        g.update(kw0=dict(kw), sk=sk, kc=kc)
+        self_ = SymObj(app1.NDNApp, dict(keychain=kc, face=None, logger=logging.getLogger('ndn.app')))
+        return dict(self=self_, name=Opaque('token', 'name'), content=Opaque('token', 'content'), kwargs=kw)
+
+    def post(c, cx, result, self, name, content, kwargs):
+        g = cx.run.ghost['dw']
+        ok = len(g['make_data']) == 1
+        out = {'one_packet_encoded_and_returned': ok and isinstance(result, Opaque) and result.typ == 'wire'}
+        if ok:
+            md = g['make_data'][0]
+            out['from_this_name_and_content'] = md['name'] is name and md['content'] is content
+            s = md['signer']
+            if g['sk'] == 'no_signature':
+                out['unsigned_on_request'] = isinstance(s, SymObj) and s.cls is NullSigner and g['kc'].calls == []
+            elif g['sk'] == 'signer given':
+                out['explicit_signer_used'] = s is g['kw0']['signer'] and g['kc'].calls == []
+            else:
+                out['keychain_signer_for_the_keyword_arguments'] = len(g['kc'].calls) == 1 and s is g['kc'].calls[0][1]
+            out.update(c.meta_clause(g, md))
+        return out
+
+
+class FaceS:
+    def __init__(self, run):
+        self.running = run.input_bool('face.running')
+        self.sent = []
+
+    def getattr_(self, it, name, node):
+        if name == 'running':
+            return self.running
+        if name == 'send':
+            return _M(lambda it_, d: self.sent.append(d))
+        raise Unsupported(f'face.{name}')
+
+
+def _put_raw(fn_, cls_, label):
+    class _C(Contract):
+        fn = fn_
+        props = ('C01', 'C10')
+        doc = f'{label}: refused with NetworkError when the face is down, otherwise exactly this packet is handed to the face once, unchanged'
+        raises = {types.NetworkError: lambda cx, self, data: Not(self.d['face'].running)}
+        exact_raises = True
+
+        def setup(self, cx):
+            return dict(self=SymObj(cls_, dict(face=FaceS(cx.run))), data=Opaque('wire', 'packet'))
+
+        def post(c, cx, result, self, data):
+            return {'this_packet_sent_once_unchanged': self.d['face'].sent == [data]}
+
+        def xpost(c, cx, exc, self, data):
+            return {'nothing_sent_when_refused': self.d['face'].sent == []}
+    _C.__name__ = 'put_raw_' + cls_.__module__.replace('.', '_')
+    return contract(_C)
+
+
+_put_raw(appv2.NDNApp._put_raw_packet, appv2.NDNApp, 'appv2 _put_raw_packet')
+_put_raw(app1.NDNApp.put_raw_packet, app1.NDNApp, 'legacy put_raw_packet')
